@@ -35,18 +35,26 @@ CODES = {
 
 def run(ctx):
     ctx.static_and_proofs("validate")
-    n = 1500 if ctx.tier == "quick" else 30000
-    args = ["-n", str(n)]
+    nseq, nsecond, nconc = (1000, 60, 400) if ctx.tier == "quick" else (24000, 600, 4000)
+    args = ["-n", str(nseq), "-second", str(nsecond), "-conc", str(nconc)]
     if ctx.replay:
-        # ./check C16 --replay replays/C16-k.json : re-run exactly that case (same seed, same index)
+        # ./check C16 --replay replays/C16-k.json : re-run exactly that case (same seed, same index; a second-use case
+        # with its group of 20, a concurrent case with its whole batch)
         import json
         rp = json.load(open(ctx.replay))
         ctx.env["VERIF_SEED"] = str(rp.get("seed", ctx.seed))
-        args = ["-only", str(rp["input"]["index"])]
+        inp = rp["input"]
+        args = ["-n", str(inp.get("nseq", nseq)), "-second", str(inp.get("nsecond", nsecond)), "-conc", str(inp.get("nconc", nconc)),
+                "-only", str(inp["index"])]
     cases = ctx.harness("c16", args, timeout=3000)
     if cases is None:
         ctx.evidence(dict(evaluations=0, distinct_nontrivial=0, rule="harness did not run", samples=[]))
         return
+    batch_notes = [c for c in cases if c.get("kind") == "batch"]
+    cases = [c for c in cases if c.get("kind") != "batch"]
+    for b in batch_notes:
+        ctx.violation(dict(kind="c16-concurrent-batch", why=b.get("note", ""), case=b.get("id"),
+                           replay_cmd="VERIF_SEED=%s ./check C16 --tier %s" % (ctx.seed, ctx.tier)))
     terms = [c["coq"] for c in cases]
     # evaluated in batches so that no coqc process holds more than ~200 plans
     results, infos = [], []
@@ -78,7 +86,12 @@ def run(ctx):
                 continue
             seen.add(codev)
             n_same = sum(1 for b in bad if b[1] == codev)
-            obj = dict(kind="c16-verdict-%d" % codev, why=text, case=c["id"], input=c["input"], mutations=c["dist"]["mutations"],
+            if c["dist"].get("family") == "concurrent":
+                text += " [this call overlapped with the same calls on other plans from 7 more goroutines in the same process]"
+            elif c["dist"].get("family") == "second-use":
+                text += " [this Submit followed other Submits of the same plan (same names / key values) on the same Workstream]"
+            obj = dict(kind="c16-verdict-%d" % codev, why=text, case=c["id"], family=c["dist"].get("family"), input=c["input"], mutations=c["dist"]["mutations"],
+                       failing_by_family=fw.histogram(b[0]["dist"].get("family") for b in bad if b[1] == codev),
                        observed=c["observed"], case_coq=c["coq"][:30000], failing_cases_with_this_verdict=n_same,
                        failing_case_ids=[b[0]["id"] for b in bad if b[1] == codev][:40],
                        replay_cmd="VERIF_SEED=%s ./check C16 --tier %s   (single case: .work/bin/c16 -only %d -out -)"
@@ -99,7 +112,11 @@ def run(ctx):
         rule="case = one plan from harness/plangen (1-3 blocks x 1-3 sequences x 1-3 actions, check groups with p in {.15,.3,.5,.8}, "
              "keys with p in {.1,.4,.8}); every 5th is left valid, the others get 1-3 mutations (5:3:2) out of %d kinds "
              "(the first kind cycles through all kinds, the rest uniform; each at a uniformly chosen applicable object); "
-             "half of the valid plans have their stored form altered through the vault (Update*: state / attempts / reason; Create: id version, "
+             "then a second-use family (groups of 20 Submits of one and the same plan - names, plugin names, key values re-used, or fresh v7 keys "
+             "in the second half - alternately malformed and well formed, on the same Workstream), then a concurrent batch (bigger plans, "
+             "every 3rd valid, workflow.Validate from 8 goroutines at once, then Workstream.Submit from 8 goroutines at once on one Workstream; "
+             "rows judged per plan id / plan name / request nonce, and the tables must grow by exactly the accepted plans' objects); "
+             "half of the sequential valid plans have their stored form altered through the vault (Update*: state / attempts / reason; Create: id version, "
              "submit time zero / 31 min / 29 min old, non-check plugin) before Start is called; "
              "distinct = distinct (plan term, verdicts) by hash; non-trivial = at least one mutation applied or more than 3 objects"
              % len(set(muts) - {"(none: valid plan)"}),
@@ -111,6 +128,7 @@ def run(ctx):
         start_called=len(started), start_refused=sum(1 for s in started if s == 0),
         distribution=dict(mutation_kinds=histogram_all(muts),
                           mutations_applied=fw.histogram(len(c["dist"]["mutations"]) for c in cases),
+                          family=fw.histogram("%s submit=%d" % (c["dist"].get("family"), c["dist"]["submit"]) for c in cases),
                           start_tamper=histogram_all("%s -> start=%d" % (c["dist"].get("tamper") or "(none)", c["dist"]["start"])
                                                      for c in cases if c["dist"]["start"] != 3),
                           objects=fw.histogram(min(c["dist"]["objects"], 60) // 10 * 10 for c in cases),
@@ -121,7 +139,8 @@ def run(ctx):
         "a_plugreg (registered / is-check / accepts-request) is the harness's own knowledge of its plugins; for Submit it is the verdict on the request after the request's own Defaults()",
         "uuid.NewV7 yields distinct version-7 ids (premise supply_inj / supply_v7 of c16_submit; observed on every stored plan)",
         "store.Create either stores the plan or fails (create_ok, property C14's subject); sqlite vault only",
-        "Not covered: plans with shared pointers (the model is over trees); cosmosdb vault; concurrent Submits",
+        "concurrent batch: overlap of the 8 goroutines is up to the Go scheduler (400 calls each of Validate and Submit in the quick tier); correct code has no shared state, so verdicts are per plan",
+        "Not covered: plans with shared pointers (the model is over trees; Submit rejects them: register already set); cosmosdb vault",
     ])
 
 
